@@ -131,3 +131,16 @@ Theorem batch_independent : forall m cf P fs b i d,
   nth i (estimate_batch m cf P fs b) d =
   (let '(es, a1s, b1s) := nth i b ([], [], []) in estimate1d m cf P fs es a1s b1s).
 Proof. exact estimate_batch_independent. Qed.
+
+(* ---- the premises are satisfiable ---- *)
+(* E = f^-4 on both bins of a two-bin spectrum: the peak method returns the level 1 *)
+Example peak_level_example :
+  fst (fst (eq_peak 4 [1; 2] [Some 1; Some (1 / 16)] [] [])) = Some 1.
+Proof. exact peak_level_example. Qed.
+
+(* E f = 1 on bins 1..2 of a four-bin spectrum (p = 1, two-bin windows, searched range [0,2)):
+   the mean method returns the level 1 *)
+Example mean_level_example :
+  exists a1 b1,
+  eq_mean 1 4 2 [1; 2; 3; 4] [Some 5; Some (1 / 2); Some (1 / 3); Some (7 / 4)] [] [] = Some (Some 1, a1, b1).
+Proof. exact mean_level_example. Qed.
